@@ -704,4 +704,47 @@ pub fn crash_points(sink: &mut Sink, rng: &mut Rng, thorough: bool, work: &Path)
       }
     }
   }
+  reader_in_progress(sink, work);
+}
+
+/// C16: a reader that has ALREADY opened the moc-set and is half-way through its walk when an append completes must still
+/// succeed, with the state before or the state after the append.  Deterministic: the reader's stdout is a pipe nobody
+/// drains (it blocks after ~64 KiB of output, in the middle of its lazy walk over the metadata), the append runs to
+/// completion, then the pipe is drained.
+fn reader_in_progress(sink: &mut Sink, work: &Path) {
+  use std::io::Read;
+  let dir = work.join("reader_race");
+  let _ = fs::remove_dir_all(&dir);
+  fs::create_dir_all(&dir).unwrap();
+  let file = dir.join("set.bin");
+  let all = Entry { id: 0, status: 3, depth: 0, ranges: vec![0..(12u64 << 58)] };
+  let p = dir.join("all.fits");
+  all.write_fits(&p, false);
+  // 16000 all-sky MOCs: the answer of a position query (one line per MOC) is larger than any pipe buffer
+  let n = 16000u64;
+  let mut list_txt = String::new();
+  for id in 0..n { list_txt.push_str(&format!("{} {}\n", 1_000_000_000 + id, p.display())); }
+  let lp = dir.join("list.txt");
+  fs::write(&lp, &list_txt).unwrap();
+  let r = run("mocset", &["make", "-n", "128", "-l", lp.to_str().unwrap(), file.to_str().unwrap()], None, &[]);
+  if !r.ok { sink.count("reader-in-progress:make-failed"); let _ = fs::remove_dir_all(&dir); return; }
+  let mut child = Command::new(bin("mocset")).args(["query", file.to_str().unwrap(), "pos", "10", "10"]).stdin(Stdio::null()).stdout(Stdio::piped()).stderr(Stdio::piped()).spawn().expect("spawn reader");
+  std::thread::sleep(std::time::Duration::from_millis(1500));
+  let a = run("mocset", &["append", file.to_str().unwrap(), "7", p.to_str().unwrap()], None, &[]);
+  let mut out = String::new();
+  let _ = child.stdout.take().unwrap().read_to_string(&mut out);
+  let mut err = String::new();
+  let _ = child.stderr.take().unwrap().read_to_string(&mut err);
+  let st = child.wait().expect("wait reader");
+  let ids: Vec<&str> = out.lines().skip(1).filter_map(|l| l.split(',').next()).collect();
+  sink.count("reader-in-progress:case");
+  if !a.ok {
+    sink.impl_failures.push(format!("C16 append failed while a reader was in progress: {}", a.err.lines().next().unwrap_or("")));
+  }
+  let before = ids.len() as u64 == n && !ids.contains(&"7");
+  let after = ids.len() as u64 == n + 1 && ids.contains(&"7");
+  if !st.success() || !(before || after) {
+    sink.impl_failures.push(format!("C16 reader-in-progress: a `mocset query` started before an append and finishing after it: exit {:?}, {} ids listed (state before = {}, after = {}); {}", st.code(), ids.len(), n, n + 1, err.lines().next().unwrap_or("")));
+  }
+  let _ = fs::remove_dir_all(&dir);
 }
